@@ -24,6 +24,11 @@
  *   maphang mt nt P Q         like map, for shapes that leave a rank without any local tile: a watchdog thread
  *                             reports `maphang .. => stuck nb_tasks=<a> pending=<b> invocations=<c>` after W seconds
  *                             without completion and ends the process (exit 42); `=> completed` otherwise.
+ *   mapwide mt nt             free-running search on the real map operator (1 rank, all threads): a very wide matrix,
+ *                             the operator only bumps an atomic per-tile counter (no lock, no event log);
+ *                               mapwide mt nt cores => ok tiles=<mt*nt> next=<final next_n>
+ *                             or `=> bad never=<k> twice=<k> first-never=(m,n).. first-twice=(m,n):c.. next=..`;
+ *                             a run that does not complete within the watchdog delay is a `!viol` (exit 42).
  *   wrapper col|row mt nt     parsec_reduce_col_New / parsec_reduce_row_New exactly as exported, on a plain
  *                             block-cyclic matrix (expected to crash: run in a process of its own);
  *                             prints `wrapper .. => completed` if it survives.
@@ -180,6 +185,7 @@ static int map_op(struct parsec_execution_stream_s *es, const void *src, void *d
     return 0;
 }
 
+static int *w_cnt, w_mt, w_nt, w_oob;
 static volatile int wd_armed, wd_secs = 120, wd_hang;
 static parsec_taskpool_t *wd_tp; static char wd_desc[128];
 static void *watchdog(void *arg)
@@ -187,6 +193,7 @@ static void *watchdog(void *arg)
     (void)arg;
     for(int i = 0; i < wd_secs * 10 && wd_armed; i++) usleep(100000);
     if( wd_armed ) {
+        if( w_cnt ) { long t = 0; for(size_t k = 0; k < (size_t)w_mt * w_nt; k++) t += w_cnt[k]; m_nev = (int)t; }
         if( wd_hang ) fprintf(out, "maphang %s => stuck nb_tasks=%d pending=%d invocations=%d\n", wd_desc, (int)wd_tp->nb_tasks, (int)wd_tp->nb_pending_actions, m_nev);
         else fprintf(out, "!viol map %s: the taskpool did not complete within %d s: nb_tasks=%d pending=%d after %d operator invocations on rank %d\n",
                      wd_desc, wd_secs, (int)wd_tp->nb_tasks, (int)wd_tp->nb_pending_actions, m_nev, myrank);
@@ -430,6 +437,59 @@ static void do_redcolrow(int row, int d, int nt, int M, int N)
     log_fini(&S); log_fini(&D);
 }
 
+/* ------------------------------------------------------------------ free-running wide-matrix search */
+static int wide_op(struct parsec_execution_stream_s *es, const void *src, void *dst, void *op_data, ...)
+{
+    va_list ap; va_start(ap, op_data);
+    int m = va_arg(ap, int), n = va_arg(ap, int);
+    va_end(ap);
+    (void)es; (void)src; (void)dst; (void)op_data;
+    if( m < 0 || n < 0 || m >= w_mt || n >= w_nt ) __atomic_fetch_add(&w_oob, 1, __ATOMIC_RELAXED);
+    else __atomic_fetch_add(&w_cnt[(size_t)m * w_nt + n], 1, __ATOMIC_RELAXED);
+    return 0;
+}
+
+static void do_mapwide(int mt, int nt)
+{
+    parsec_matrix_block_cyclic_t A;
+    if( mt < 1 || nt < 1 || (long)mt * nt > 4000000 || world != 1 ) { fprintf(out, "mapwide %d %d => bad-op\n", mt, nt); return; }
+    parsec_matrix_block_cyclic_init(&A, PARSEC_MATRIX_INTEGER, PARSEC_MATRIX_TILE, myrank, 1, 1, mt, nt, 0, 0, mt, nt, 1, 1, 1, 1, 0, 0);
+    A.mat = parsec_data_allocate((size_t)mt * nt * sizeof(int));
+    memset(A.mat, 0, (size_t)mt * nt * sizeof(int));
+    parsec_data_collection_set_key(&A.super.super, "W");
+    w_cnt = calloc((size_t)mt * nt, sizeof(int)); w_mt = mt; w_nt = nt; w_oob = 0; m_nev = 0;
+    parsec_taskpool_t *tp = parsec_map_operator_New((parsec_tiled_matrix_t*)&A, (parsec_tiled_matrix_t*)&A, wide_op, "C22w");
+    map_tp_mirror_t *mir = (map_tp_mirror_t*)tp;
+    int mirror_ok = (mir->src == (parsec_tiled_matrix_t*)&A && mir->op == wide_op && mir->next_n == 0);
+    pthread_t wd;
+    snprintf(wd_desc, sizeof wd_desc, "(wide) %d %d 1 1", mt, nt); wd_tp = tp; wd_hang = 0; wd_armed = 1; pthread_create(&wd, NULL, watchdog, NULL);
+    int rc = parsec_context_add_taskpool(parsec, tp);
+    if( rc == PARSEC_SUCCESS ) rc = parsec_context_start(parsec);
+    if( rc == PARSEC_SUCCESS ) rc = parsec_context_wait(parsec);
+    wd_armed = 0; pthread_join(wd, NULL);
+    int next = mirror_ok ? (int)mir->next_n : -1;
+    long never = 0, twice = 0;
+    for(size_t k = 0; k < (size_t)mt * nt; k++) { never += (w_cnt[k] == 0); twice += (w_cnt[k] > 1); }
+    fprintf(out, "mapwide %d %d %d => ", mt, nt, parsec->virtual_processes[0]->nb_cores);
+    if( rc != PARSEC_SUCCESS ) fprintf(out, "error %d\n", rc);
+    else if( 0 == never && 0 == twice && 0 == w_oob ) fprintf(out, "ok tiles=%ld next=%d\n", (long)mt * nt, next);
+    else {
+        fprintf(out, "bad never=%ld twice=%ld oob=%d", never, twice, w_oob);
+        int shown = 0;
+        fprintf(out, " first-never=");
+        for(size_t k = 0; k < (size_t)mt * nt && shown < 4; k++) if( w_cnt[k] == 0 ) { fprintf(out, "(%d,%d)", (int)(k / nt), (int)(k % nt)); shown++; }
+        shown = 0;
+        fprintf(out, " first-twice=");
+        for(size_t k = 0; k < (size_t)mt * nt && shown < 4; k++) if( w_cnt[k] > 1 ) { fprintf(out, "(%d,%d):%d", (int)(k / nt), (int)(k % nt), w_cnt[k]); shown++; }
+        fprintf(out, " next=%d\n", next);
+    }
+    fprintf(out, "#stat mapwide_cases 1\n#stat mapwide_tiles %ld\n#stat mapwide_cores_%d 1\n", (long)mt * nt, parsec->virtual_processes[0]->nb_cores);
+    parsec_taskpool_free(tp);
+    free(w_cnt); w_cnt = NULL;
+    parsec_data_free(A.mat);
+    parsec_tiled_matrix_destroy((parsec_tiled_matrix_t*)&A);
+}
+
 static void do_wrapper(const char *which, int mt, int nt)
 {
     parsec_matrix_block_cyclic_t S, D;
@@ -464,6 +524,7 @@ int main(int argc, char **argv)
         if( 5 == sscanf(line, "apply %d %d %d %d %d", &a, &b, &c, &d, &e) ) do_apply(a, b, c, d, e);
         else if( 4 == sscanf(line, "map %d %d %d %d", &a, &b, &c, &d) ) do_map(a, b, c, d, 0);
         else if( 4 == sscanf(line, "maphang %d %d %d %d", &a, &b, &c, &d) ) do_map(a, b, c, d, 1);
+        else if( 2 == sscanf(line, "mapwide %d %d", &a, &b) ) do_mapwide(a, b);
         else if( 1 == sscanf(line, "watchdog %d", &a) ) wd_secs = a;
         else if( 1 == sscanf(line, "reduce %d", &a) ) do_reduce(a);
         else if( 4 == sscanf(line, "redcol %d %d %d %d", &a, &b, &c, &d) ) do_redcolrow(0, a, b, c, d);
